@@ -769,13 +769,18 @@ func (s *Server) cmdSearch(msg *Message) (res resp.Value, err error) {
 		if sw.output == outputCount && len(sw.wheres) == 0 &&
 			len(sw.whereins) == 0 && len(sw.whereevals) == 0 &&
 			sw.globEverything {
-			// the cursor is unsigned: compare before converting, a value above
-			// the int range would turn negative and inflate the count
-			count := 0
-			if sargs.cursor < uint64(sw.col.StringCount()) {
-				count = sw.col.StringCount() - int(sargs.cursor)
+			// what the counting iteration returns: the entries after the
+			// cursor (unsigned: compare before subtracting), at most LIMIT
+			count := uint64(sw.col.StringCount())
+			if sargs.cursor >= count {
+				count = 0
+			} else {
+				count -= sargs.cursor
 			}
-			sw.count = uint64(count)
+			if count > sw.limit {
+				count = sw.limit
+			}
+			sw.count = count
 		} else {
 			limits := multiGlobParse(sw.globs, sargs.desc)
 			if limits[0] == "" && limits[1] == "" {
